@@ -569,26 +569,43 @@ cleanup:
 
 static int setService(HttpAsyncCtx *clientCtx, const char *url, const char *user, const char *pass) {
 	int res = KSI_UNKNOWN_ERROR;
+	char *tmpUrl = NULL;
+	char *tmpUser = NULL;
+	char *tmpPass = NULL;
 
 	if (clientCtx == NULL || url == NULL || user == NULL || pass == NULL) {
 		res = KSI_INVALID_ARGUMENT;
 		goto cleanup;
 	}
 
-	if (clientCtx->url) KSI_free(clientCtx->url);
-	res = KSI_strdup(url, &clientCtx->url);
+	/* Make the copies first: a failed allocation must not leave a released string behind. */
+	res = KSI_strdup(url, &tmpUrl);
 	if (res != KSI_OK) goto cleanup;
 
-	if (clientCtx->ksi_user) KSI_free(clientCtx->ksi_user);
-	res = KSI_strdup(user, &clientCtx->ksi_user);
+	res = KSI_strdup(user, &tmpUser);
 	if (res != KSI_OK) goto cleanup;
 
-	if (clientCtx->ksi_pass) KSI_free(clientCtx->ksi_pass);
-	res = KSI_strdup(pass, &clientCtx->ksi_pass);
+	res = KSI_strdup(pass, &tmpPass);
 	if (res != KSI_OK) goto cleanup;
+
+	KSI_free(clientCtx->url);
+	clientCtx->url = tmpUrl;
+	tmpUrl = NULL;
+
+	KSI_free(clientCtx->ksi_user);
+	clientCtx->ksi_user = tmpUser;
+	tmpUser = NULL;
+
+	KSI_free(clientCtx->ksi_pass);
+	clientCtx->ksi_pass = tmpPass;
+	tmpPass = NULL;
 
 	res = KSI_OK;
 cleanup:
+	KSI_free(tmpUrl);
+	KSI_free(tmpUser);
+	KSI_free(tmpPass);
+
 	return res;
 }
 
